@@ -125,8 +125,11 @@ def project_interp(run) -> dict:
             rec.update(f)
             if f["cls"] == "AlarmNode" or f["cls"] == "MacroNode":
                 rec["desc"] = tree.descendants(e["n"])
-            rec["kids"] = [c for c in tree.children.get(e["n"], []) if tree.nodes[c]["cls"] not in WS] \
-                if f["cls"] == "InjectedNode" else []
+            # the lines of a body that must have started when the body completes (a Macro definition is not "started" when it is
+            # passed; a nested Watch / Alarm is judged by its own invocation)
+            rec["kids"] = [c for c in tree.children.get(e["n"], [])
+                           if tree.nodes[c]["cls"] not in WS + (() if f["cls"] == "InjectedNode" else ("MacroNode", "WatchNode", "AlarmNode"))] \
+                if f["cls"] in ("InjectedNode", "WatchNode", "AlarmNode") else []
             if f["cls"] == "InterpreterCommandNode" and f["ins"] == "Wait":
                 rec["waitMs"] = _dur_ms(f["args"])
             if f["prevCls"] == "InterpreterCommandNode" and tree.nodes.get(f["prev"], {}).get("ins") == "Wait":
